@@ -33,6 +33,10 @@ class PInt(PV):
 
     def __init__(self, t):
         self.t = t if z3.is_expr(t) else z3.IntVal(int(t))
+        # constant folding: an operator applied to numerals only becomes a numeral (so that idioms keyed on
+        # constant operands, e.g. x & ~1, see the constant)
+        if z3.is_app(self.t) and self.t.num_args() > 0 and all(z3.is_int_value(c) for c in self.t.children()):
+            self.t = z3.simplify(self.t)
 
 
 class PBool(PV):
@@ -492,6 +496,9 @@ class PyExec:
         if isinstance(n.op, ast.Not):
             return PBool(z3.Not(self.truth(st, v, n)))
         t = self.as_int(st, v, n)
+        if z3.is_int_value(t):
+            c = t.as_long()
+            return PInt({ast.USub: -c, ast.UAdd: c, ast.Invert: ~c}[type(n.op)])
         if isinstance(n.op, ast.USub):
             return PInt(-t)
         if isinstance(n.op, ast.UAdd):
@@ -1218,7 +1225,9 @@ class PyExec:
         if (isinstance(n.iter, ast.Call) and isinstance(n.iter.func, ast.Attribute) and n.iter.func.attr == "items"
                 and not n.iter.args and not n.iter.keywords):
             return self.for_dict_items(st, n, ordinal, inv)
-        it = self.ev(st, n.iter)
+        enum = (isinstance(n.iter, ast.Call) and isinstance(n.iter.func, ast.Name) and n.iter.func.id == "enumerate"
+                and len(n.iter.args) == 1 and not n.iter.keywords)
+        it = self.ev(st, n.iter.args[0] if enum else n.iter)
         if not (isinstance(it, PRef) and it.cls == "list"):
             raise OutOfSubset("for over %s" % it.kind)
         if inv is None:
@@ -1227,6 +1236,9 @@ class PyExec:
         kname = "_k%d" % ordinal
         st.vars[kname] = PInt(0)
         elem_kind = self.opt.get("for_elem", {}).get(ordinal)
+        if elem_kind is None and self.opt.get("elem_kind", {}).get("list", "any") != "any":
+            lk = self.opt["elem_kind"]["list"]
+            elem_kind = lambda ex, s, cell: ex.cell_to_val(lk, cell)  # noqa: E731
 
         def cond(s):
             return s.vars[kname].t < s.heap.len(it.addr)
@@ -1235,7 +1247,7 @@ class PyExec:
             k = s.vars[kname].t
             cell = s.heap.el(it.addr, k)
             v = elem_kind(self, s, cell) if elem_kind else PAny(cell)
-            self.assign(s, n.target, v, n)
+            self.assign(s, n.target, PTuple([PInt(k), v]) if enum else v, n)
             s.vars[kname] = PInt(k + 1)
         return self.loop_inv(st, n, ordinal, inv, cond, n.body, pre_body, extra_mod=[kname] + names_in_target(n.target))
 
@@ -1346,10 +1358,11 @@ class PyExec:
     # ---------------------------------------------------------------- entry
     def run(self, st, args):
         fa = self.func.args
-        names = [a.arg for a in fa.posonlyargs + fa.args]
+        plist = fa.posonlyargs + fa.args + ([fa.vararg] if fa.vararg else [])   # *args arrives as one sequence object
+        names = [a.arg for a in plist]
         if len(names) != len(args):
             raise StaleContract("%s takes %d parameters, contract describes %d" % (self.qualname, len(names), len(args)))
-        for a, v in zip(fa.posonlyargs + fa.args, args):
+        for a, v in zip(plist, args):
             t = self.annotation_type(a.annotation) if a.annotation is not None else None
             if t is not None:
                 self.ann[a.arg] = t
@@ -1371,7 +1384,7 @@ class PyExec:
 
     def param_names(self):
         fa = self.func.args
-        return [a.arg for a in fa.posonlyargs + fa.args]
+        return [a.arg for a in fa.posonlyargs + fa.args + ([fa.vararg] if fa.vararg else [])]
 
 
 def arg_term(a):
